@@ -14,6 +14,11 @@
 (*                                     asked of the grid object; stuttering *)
 (*  Write/Read[art, digest]            digest id of shape+values+order      *)
 (*  ComputeEnergy []                   lattice energies assigned per cell   *)
+(*  NewProcess []                      a new job: memory empty, files stay  *)
+(*  RuleRead/RuleAct/RuleWrite [rule, art | act]   events DERIVED from the  *)
+(*       input / output declarations of the workflow files (growth G08)     *)
+(*  An event whose action is not ENABLED in the pipeline model is rejected  *)
+(*  ("the pipeline model does not allow ...") and the trace goes on.        *)
 (*  CheckPT   [nframes, want, dev3, m1dev3, tol3, selok, structok]          *)
 (*       the pseudotrajectory FILES read back with the package's reader:    *)
 (*       deviations from the prescribed placements in 1e-3 Angstrom, tol3 = *)
@@ -75,9 +80,36 @@ PtClause(e) ==
 TraceInit == Init /\ cur = Log[1].tid /\ l = 1 /\ written = <<>> /\ TLCSet(1, 0)
 
 Key(a) == <<cur, a>>
-TraceNext ==
-  /\ l <= Len(Log)
-  /\ \/ Ev.ev = "NewSpec" /\ NewSpec(Ev.tid) /\ UNCHANGED written
+(* is the event's action enabled in the pipeline model at this point?  (ENABLED of the model's own actions, so the guards
+   are never restated here); a disabled event is rejected and the trace goes on from the unchanged state *)
+(* events derived from the workflow files (growth G08): the rule's action by name, no logged values *)
+RuleAction(a) == \/ (a = "BuildGrid" /\ BuildGrid) \/ (a = "GenPT" /\ GenPT) \/ (a = "ComputeEnergy" /\ ComputeEnergy)
+                 \/ (a = "BuildRate" /\ BuildRate) \/ (a = "Decompose" /\ Decompose) \/ (a = "Simulate" /\ Simulate)
+                 \/ (a = "Assign" /\ Assign) \/ (a = "BuildMsm" /\ BuildMsm)
+Enabled(e) ==
+  CASE e.ev = "NewSpec" -> ENABLED NewSpec(e.tid)
+    [] e.ev = "RuleAct" -> ENABLED RuleAction(e.act)
+    [] e.ev = "RuleRead" -> ENABLED Read(e.art)
+    [] e.ev = "RuleWrite" -> ENABLED Write(e.art)
+    [] e.ev = "NewProcess" -> TRUE
+    [] e.ev = "BuildGrid" -> ENABLED BuildGrid
+    [] e.ev = "Write" -> ENABLED Write(e.art)
+    [] e.ev = "Read" -> ENABLED Read(e.art)
+    [] e.ev = "GenPT" -> ENABLED GenPT
+    [] e.ev = "ComputeEnergy" -> ENABLED ComputeEnergy
+    [] e.ev = "BuildRate" -> ENABLED BuildRate
+    [] e.ev \in {"Decompose", "DecomposeMsm"} -> ENABLED Decompose
+    [] e.ev = "Simulate" -> ENABLED Simulate
+    [] e.ev = "Assign" -> ENABLED Assign
+    [] e.ev = "BuildMsm" -> ENABLED BuildMsm
+    [] OTHER -> TRUE
+ErrOf(e) == IF "err" \in DOMAIN e THEN e.err ELSE ""
+Taken ==
+     \/ Ev.ev = "NewSpec" /\ NewSpec(Ev.tid) /\ UNCHANGED written
+     \/ Ev.ev = "NewProcess" /\ NewProcess /\ UNCHANGED written
+     \/ Ev.ev = "RuleAct" /\ RuleAction(Ev.act) /\ UNCHANGED written
+     \/ Ev.ev = "RuleRead" /\ Read(Ev.art) /\ UNCHANGED written
+     \/ Ev.ev = "RuleWrite" /\ Write(Ev.art) /\ UNCHANGED written
      \/ Ev.ev = "BuildGrid" /\ BuildGrid /\ Check(IF Ev.err # "" THEN "exception:" \o Ev.err ELSE "ok") /\ UNCHANGED written
      \/ Ev.ev = "Write" /\ Write(Ev.art) /\ Check(IF Ev.err # "" THEN "exception:" \o Ev.err ELSE "ok")
                         /\ written' = (Key(Ev.art) :> Ev.digest) @@ written
@@ -104,6 +136,13 @@ TraceNext ==
                                /\ Check(IF Ev.err # "" THEN "exception:" \o Ev.err
                                         ELSE IF Ev.lam1_9 > 1000 THEN "largest eigenvalue of the MSM is not 1"
                                         ELSE IF Ev.spread6 > 10 THEN "stationary vector is not proportional to the visit counts" ELSE "ok")
+TraceNext ==
+  /\ l <= Len(Log)
+  /\ IF Enabled(Ev) THEN Taken
+     ELSE /\ Reject("the pipeline model does not allow " \o Ev.ev \o (IF "art" \in DOMAIN Ev THEN "(" \o Ev.art \o ")" ELSE "")
+                    \o (IF "act" \in DOMAIN Ev THEN "(" \o Ev.act \o ")" ELSE "")
+                    \o " here: an artefact it needs is not there" \o (IF "rule" \in DOMAIN Ev THEN " [rule " \o Ev.rule \o "]" ELSE ""))
+          /\ UNCHANGED <<vars, written>>
   /\ l' = l + 1
   /\ TLCSet(1, l)
 TraceSpec == TraceInit /\ [][TraceNext]_tvars
